@@ -273,7 +273,25 @@ def _raw_ids_in_result(facts, ft, CANON):
         if t[0] == "payload":
             return value_ok(t[2], depth + 1) if t[1] in ("Ok", "Some") else True
         if t[0] == "field" and str(t[2]).isdigit():
-            # a component of an iteration item (`(i, &cell)` of enumerate / zip): judged as the item
+            # a component of an iteration item: of `a.zip(b)` component 0 comes from a and 1 from b; of `x.enumerate()`
+            # component 1 comes from x and 0 is a position, not an ID
+            b_ = peel(t[1])
+            src = items.get(strip_site(b_))
+            if src is not None:
+                s_ = src
+                for _ in range(8):
+                    while s_[0] in ("ref", "deref"):
+                        s_ = s_[2] if s_[0] == "ref" else s_[1]
+                    if s_[0] == "call" and isinstance(s_[1], str) and s_[2]:
+                        sh = s_[1].split("::")[-1]
+                        if sh == "zip" and len(s_[2]) == 2:
+                            return value_ok(s_[2][int(t[2])], depth + 1) if int(t[2]) in (0, 1) else False
+                        if sh == "enumerate":
+                            return value_ok(s_[2][0], depth + 1) if int(t[2]) == 1 else False
+                        if sh in ("into_iter", "iter", "by_ref", "copied", "cloned", "rev", "skip", "take", "peekable"):
+                            s_ = s_[2][0]
+                            continue
+                    break
             return value_ok(t[1], depth + 1)
         if t[0] == "call" and isinstance(t[1], str):
             if t[1] in CANON:
@@ -299,7 +317,10 @@ def _raw_ids_in_result(facts, ft, CANON):
             return False
         if t[0] == "index":
             return value_ok(t[1], depth + 1)
-        if t[0] == "agg" and t[1] in ("vec", "array", "tuple"):
+        if t[0] == "agg" and t[1] == "tuple":
+            # a record kept per cell (`(cell, fan_out)`): its ID-typed components count, the others are not IDs
+            return all(value_ok(x, depth + 1) or (ft.tyof(x) or "u64") not in ("u64", "&u64") for x in t[3])
+        if t[0] == "agg" and t[1] in ("vec", "array"):
             return all(value_ok(x, depth + 1) for x in t[3])
         if t[0] == "agg" and t[1] == "adt" and isinstance(t[2], str) and t[2].split("::")[-1] in ("Ok", "Some") and t[3]:
             return value_ok(t[3][0], depth + 1)
